@@ -635,6 +635,8 @@ func jsonTags(p *core.Program, rel, typ string) map[string]string {
 }
 
 func c09r4(c *core.Ctx) {
+	charSetters(c)
+	charGateExact(c)
 	p := c.P
 	f := p.Func("hap/http", "(*Server).Characteristics")
 	if f == nil {
